@@ -21,6 +21,10 @@ func (w *world) stress() error {
 	w.open = true
 	w.mu.Unlock()
 	w.emit(vtrace.Event{"ev": "start", "gc": b2i(w.sc.Conf.GC)})
+	// the log handler of the client is slow inside Close (it yields the processor): collections last longer
+	w.hook.mu.Lock()
+	w.hook.yield = true
+	w.hook.mu.Unlock()
 	cs := []string{}
 	for c := range w.sc.Conf.CP {
 		cs = append(cs, c)
